@@ -66,7 +66,7 @@ MemIds(g) == {n[2] : n \in {m \in DOMAIN g.cdir : m[1] = "mem"}}
 VlogIds(g) == {n[2] : n \in {m \in DOMAIN g.cdir : m[1] = "vlog"}}
 MaxOf(S) == IF S = {} THEN 0 ELSE CHOOSE x \in S : \A y \in S : y <= x
 MinOf(S) == IF S = {} THEN 0 ELSE CHOOSE x \in S : \A y \in S : x <= y
-A1(g) == /\ MemIds(g) # {} => Synced(g, <<"mem", MaxOf(MemIds(g))>>)
+A1(g) == /\ \A m \in MemIds(g) : Synced(g, <<"mem", m>>)      \* every WAL, also one rotated away inside the batch
          /\ VlogIds(g) # {} => Synced(g, <<"vlog", MaxOf(VlogIds(g))>>)
 A2(g) == /\ MemIds(g) # {} => DurEntry(g, <<"mem", MaxOf(MemIds(g))>>)
          /\ VlogIds(g) # {} => DurEntry(g, <<"vlog", MaxOf(VlogIds(g))>>)
